@@ -1168,10 +1168,13 @@ nni_ctx_rele(nni_ctx *ctx)
 	// tries to avoid ID reuse.
 	nni_id_remove(&ctx_ids, ctx->c_id);
 	nni_list_remove(&sock->s_ctxs, ctx);
+
+	// Finalize the context before letting a closing socket proceed (as
+	// sock_shutdown does, with sock_lk held): the protocol's ctx_fini
+	// uses the socket, which may be freed as soon as the closer wakes.
+	nni_ctx_destroy(ctx);
 	nni_cv_wake(&sock->s_close_cv);
 	nni_mtx_unlock(&sock_lk);
-
-	nni_ctx_destroy(ctx);
 }
 
 int
